@@ -247,7 +247,10 @@ class InitOwnership(FunctionContract):
             calls['fsic.core.containers.VectorContainer.__init__'] = parent_init
         interp.registry.set_calls(calls)
         if self.which == 'linker':
-            return Call([], {}, self_obj=obj, entry=e)
+            # a linker without submodels on an explicit span: span, dtype, default value and initial values of its own core variables
+            e['span'] = [1, 2, 3]
+            e['given'] = {'dtype': object(), 'default_value': object(), 'Z': object()}
+            return Call([], dict(e['given'], span=e['span']), self_obj=obj, entry=e)
         if self.which == 'model':
             # every constructor argument reaches the parent constructor as given
             e['span'] = [1, 2, 3]
@@ -281,6 +284,9 @@ class InitOwnership(FunctionContract):
             ctx.prove(z3.BoolVal(ok), 'span_options_and_initial_values_reach_the_parent_constructor_unchanged', 'ensures', props=('C11', 'C09', 'C18'), note=str(sorted(pk)))
             ctx.prove(z3.BoolVal(f.get('engine') is e['engine']), 'engine_argument_is_stored', 'ensures', props=('C11', 'C07'))
         if e['which'] == 'linker':
+            pk = e.get('parent_kwargs') or {}
+            ok = set(pk) == set(e['given']) | {'span'} and pk.get('span') is e['span'] and all(pk.get(k) is v for k, v in e['given'].items())
+            ctx.prove(z3.BoolVal(ok), 'span_dtype_default_value_and_initial_values_reach_the_parent_constructor_unchanged', 'ensures', props=('C11', 'C08', 'C09'), note=str(sorted(pk)))
             import fsic.core.linkers as _lk
             init = _lk.BaseLinker.__init__
             defaults = list(init.__defaults__ or ()) + list((init.__kwdefaults__ or {}).values())
